@@ -77,6 +77,18 @@ static void pcx(cx v)
 }
 
 static vnacal_t *vcp = NULL;
+/* fmin:fmax of a calibration.  A calibration without frequency points (vnacal_new_alloc accepts 0) has
+   none: both getters must return HUGE_VAL; that is printed as nofreq:nofreq (what the model driver prints
+   for c_nf = 0), anything else as the numbers returned. */
+static void pfrange(int ci)
+{
+    double fmin = vnacal_get_fmin(vcp, ci), fmax = vnacal_get_fmax(vcp, ci);
+    if (vnacal_get_frequencies(vcp, ci) == 0 && fmin == HUGE_VAL && fmax == HUGE_VAL) {
+	printf("nofreq:nofreq");
+	return;
+    }
+    pval64(fmin); printf(":"); pval64(fmax);
+}
 static vnacal_new_t *vn[MAXVN];
 static int vn_dim[MAXVN], vn_nf[MAXVN];
 static double probe_f = 2.0;
@@ -95,8 +107,7 @@ static void digest(void)
 	const char *tag = vnacal_property_get(vcp, ci, "tag");
 	printf("%d:%s:%d:%d:%d:%d:", ci, name, (int)vnacal_get_type(vcp, ci), vnacal_get_rows(vcp, ci),
 		vnacal_get_columns(vcp, ci), vnacal_get_frequencies(vcp, ci));
-	pval64(vnacal_get_fmin(vcp, ci)); printf(":");
-	pval64(vnacal_get_fmax(vcp, ci));
+	pfrange(ci);
 	if (vnacal_get_z0(vcp, ci) != 50.0) printf(":z0bad");
 	printf(":%s;", tag ? tag : "-");
     }
@@ -205,7 +216,7 @@ int main(void)
 	    if (id < 0 || id >= MAXVN || vn[id] == NULL) {
 		printf("setf r=nosuch e=- cb=0 ");
 	    } else {
-		double *f = calloc(vn_nf[id] + 1, sizeof(double));
+		double *f = malloc((size_t)vn_nf[id] * sizeof(double));	/* exactly nf entries (0 bytes for nf = 0: any read is an ASan report) */
 		for (int i = 0; i < vn_nf[id]; ++i) f[i] = (double)(f0 + i);
 		int r = vnacal_new_set_frequency_vector(vn[id], f);
 		result_int(op, r, r == -1);
@@ -286,9 +297,9 @@ int main(void)
 		printf("getcal r=%s e=%s cb=%d ", consistent ? "none" : "inconsistent", errclass(errno), callbacks);
 	    } else {
 		const double *fv = vnacal_get_frequency_vector(vcp, ci);
-		int okv = fv != NULL && nf >= 1 && fv[0] == vnacal_get_fmin(vcp, ci) && fv[nf - 1] == vnacal_get_fmax(vcp, ci);
+		int okv = nf == 0 ? 1 : (fv != NULL && nf >= 1 && fv[0] == vnacal_get_fmin(vcp, ci) && fv[nf - 1] == vnacal_get_fmax(vcp, ci));
 		printf("getcal r=%s:%d:%d:%d:%d:", name, type, rows, cols, nf);
-		pval64(vnacal_get_fmin(vcp, ci)); printf(":"); pval64(vnacal_get_fmax(vcp, ci));
+		pfrange(ci);
 		printf("%s e=- cb=%d ", okv ? "" : ":fvbad", callbacks);
 	    }
 	} else if (strcmp(op, "end") == 0) {
